@@ -28,6 +28,7 @@ pub fn c16(a: &Args) {
         for line in text.lines() {
             let Ok(v) = serde_json::from_str::<Value>(line) else { continue };
             let mut p = Palette::new();
+            DEFINED.store(p.len(), std::sync::atomic::Ordering::Relaxed);
             out.ev(&json!({"ev":"reset","colors":pal_colors(&p),"src":"tlc"}));
             for op in v["hist"].as_array().unwrap_or(&vec![]) {
                 apply_pal_op(&mut p, op, &mut out);
@@ -36,7 +37,8 @@ pub fn c16(a: &Args) {
             // of the model's universe into the reached palette
             for c in [[0u8, 0, 0], [0, 0, 170], [1, 2, 3], [3, 2, 1]] {
                 let mut q = p.clone();
-                out.ev(&json!({"ev":"reset","colors":pal_colors(&q),"src":"tlc-edge"}));
+                DEFINED.store(q.len(), std::sync::atomic::Ordering::Relaxed);
+            out.ev(&json!({"ev":"reset","colors":pal_colors(&q),"src":"tlc-edge"}));
                 apply_pal_op(&mut q, &json!({"op":"ins","arg":c}), &mut out);
             }
             n_gen += 1;
@@ -54,7 +56,8 @@ pub fn c16(a: &Args) {
             2 => { let mut p = Palette::new(); for i in 0..r.gen_range(1..300) { let mut c = Color::new(r.gen(), r.gen(), r.gen()); if i % 3 == 0 { c.name = Some(format!("c{i}")); } p.push(c); } p }
             _ => { let mut p = Palette::dos_default(); for _ in 0..r.gen_range(0..40) { let c = r.gen_range(0..4u8); p.push(Color::new(c, c, 0)); } p } // with duplicates
         };
-        out.ev(&json!({"ev":"reset","colors":pal_colors(&p),"src":"rnd"}));
+        DEFINED.store(p.len(), std::sync::atomic::Ordering::Relaxed);
+            out.ev(&json!({"ev":"reset","colors":pal_colors(&p),"src":"rnd"}));
         let len = r.gen_range(1..=40);
         for _ in 0..len {
             let k = r.gen_range(0..100);
@@ -181,6 +184,9 @@ pub fn c16(a: &Args) {
     eprintln!("c16: {} events", out.n);
 }
 
+/// number of palette indices the API has defined so far in the current case (reset by `pal_reset`)
+static DEFINED: std::sync::atomic::AtomicUsize = std::sync::atomic::AtomicUsize::new(0);
+
 fn apply_pal_op(p: &mut Palette, op: &Value, out: &mut Out) {
     let name = op["op"].as_str().unwrap_or("");
     let arg = &op["arg"];
@@ -194,7 +200,17 @@ fn apply_pal_op(p: &mut Palette, op: &Value, out: &mut Out) {
         _ => { p.clear(); json!({"ev":"clear"}) }
     });
     match res {
-        Ok(mut v) => { v["colors"] = pal_colors(p); out.ev(&v); }
+        Ok(mut v) => {
+            v["colors"] = pal_colors(p);
+            // what the indices the API has handed out or been given RESOLVE to (get_rgb), also beyond the stored length: a set at
+            // index i defines the indices 0..=i whether or not the vector grew
+            let hi = if name == "set" || name == "setn" { arg[0].as_u64().unwrap_or(0) as usize + 1 } else { 0 };
+            let before = if name == "resize" || name == "clear" { 0 } else { DEFINED.load(std::sync::atomic::Ordering::Relaxed) };
+            let n = p.len().max(hi).max(before).min(400);
+            DEFINED.store(n, std::sync::atomic::Ordering::Relaxed);
+            v["lk"] = Value::Array((0..n).map(|i| { let (r, g, b) = p.get_rgb(i as u32); json!([r, g, b]) }).collect());
+            out.ev(&v);
+        }
         Err(pi) => out.ev(&json!({"ev":"panic","site":panic_site(&pi),"op":op})),
     }
 }
@@ -282,9 +298,18 @@ pub fn c19(a: &Args) {
         let variants = if thorough { 6 } else { 2 };
         for p in 1..=16usize {
             for var in 0..variants {
-                let pre: Vec<u8> = if var % 2 == 0 { vec![] } else { (0..16).map(|_| r.gen()).collect() };
                 let base: Vec<u8> = if var < 2 { vec![0u8; 16] } else { (0..16).map(|_| r.gen()).collect() };
+                let pre: Vec<u8> = if var % 2 == 0 { vec![] } else { (0..16).map(|_| r.gen()).collect() };
                 let post: Vec<u8> = (0..(var % 4)).map(|_| r.gen()).collect();
+                let c32: Vec<Value> = (0..=255u8).map(|v| { let mut s = pre.clone(); let mut b = base.clone(); b[p - 1] = v; s.extend(b); s.extend(&post); hi_lo(get_crc32(&s)) }).collect();
+                emit(json!({"ev":"blk","p":p,"pre":pre,"base":base,"post":post,"c32":c32}), &mut outs);
+            }
+            // neighbouring blocks that are EQUAL except for the varied byte (runs of equal bytes are what real data looks like:
+            // anything a block loop carries over from the previous block shows only here), with a blank and a random block
+            for (k, fill) in [Some(32u8), None].iter().enumerate() {
+                let base: Vec<u8> = match fill { Some(b) => vec![*b; 16], None => (0..16).map(|_| r.gen()).collect() };
+                let pre: Vec<u8> = base.iter().cycle().take(16 * (1 + k)).copied().collect();
+                let post: Vec<u8> = base.iter().take(k * 5).copied().collect();
                 let c32: Vec<Value> = (0..=255u8).map(|v| { let mut s = pre.clone(); let mut b = base.clone(); b[p - 1] = v; s.extend(b); s.extend(&post); hi_lo(get_crc32(&s)) }).collect();
                 emit(json!({"ev":"blk","p":p,"pre":pre,"base":base,"post":post,"c32":c32}), &mut outs);
             }
